@@ -24,8 +24,9 @@ where
         let mut inner = bcf::Reader::from(inner);
 
         let header = inner.read_header()?;
-        let string_maps = bcf::header::StringMaps::try_from(&header)
-            .map_err(|e| io::Error::new(io::ErrorKind::InvalidData, e))?;
+        // The string maps read with the header follow the order of the header lines (or their
+        // IDX fields); rebuilding them from the parsed header would order entries by record type
+        let string_maps = inner.string_maps().clone();
 
         let samples = header
             .sample_names()
